@@ -11,25 +11,25 @@ use serde_json::{json, Value};
 use std::rc::Rc;
 use std::sync::Arc;
 
-#[derive(desert_macro::BinaryCodec, PartialEq, Debug)]
+#[derive(desert_macro::BinaryCodec, PartialEq, Debug, Clone)]
 pub struct RecList {
     pub v: u8,
     pub next: Option<Box<RecList>>,
 }
-#[derive(desert_macro::BinaryCodec, PartialEq, Debug)]
+#[derive(desert_macro::BinaryCodec, PartialEq, Debug, Clone)]
 #[evolution(FieldAdded("label", 0))]
 pub struct RecEvo {
     pub v: u8,
     pub next: Option<Box<RecEvo>>,
     pub label: u8,
 }
-#[derive(desert_macro::BinaryCodec, PartialEq, Debug)]
+#[derive(desert_macro::BinaryCodec, PartialEq, Debug, Clone)]
 #[evolution(FieldAdded("kids", Vec::new()))]
 pub struct RecTree {
     pub v: u8,
     pub kids: Vec<RecTree>,
 }
-#[derive(desert_macro::BinaryCodec, PartialEq, Debug)]
+#[derive(desert_macro::BinaryCodec, PartialEq, Debug, Clone)]
 pub enum RecEnum {
     Leaf(u8),
     Node { l: Box<RecEnum>, r: Box<RecEnum> },
@@ -190,7 +190,7 @@ impl BinaryDeserializer for Gate {
         Ok(Gate(f))
     }
 }
-#[derive(desert_macro::BinaryCodec, PartialEq, Debug)]
+#[derive(desert_macro::BinaryCodec, PartialEq, Debug, Clone)]
 #[evolution(FieldAdded("label", 0))]
 pub struct GEvo {
     pub v: u8,
@@ -198,7 +198,7 @@ pub struct GEvo {
     pub next: Option<Box<GEvo>>,
     pub label: u8,
 }
-#[derive(desert_macro::BinaryCodec, PartialEq, Debug)]
+#[derive(desert_macro::BinaryCodec, PartialEq, Debug, Clone)]
 pub enum GEnum {
     Leaf(Gate),
     Node { l: u8, r: Box<GEnum> },
@@ -280,5 +280,81 @@ pub fn parked_calls(threads: usize, depth: u64) -> Vec<Value> {
     }
     let mut bad = run("GEvo (header at every level)", gevo(depth), threads);
     bad.extend(run("GEnum (headerless)", genum(depth), threads));
+    bad
+}
+
+// ---------------------------------------------------------------------------------------------
+// C18: the default expression of a FieldAdded step is user code; it is evaluated by the call that needs it,
+// in the thread of that call - a call's result is what the same call gives in a fresh process
+thread_local! {
+    pub static REGION: std::cell::Cell<u8> = std::cell::Cell::new(0);
+}
+fn region() -> u8 {
+    REGION.with(|r| r.get())
+}
+macro_rules! order_type {
+    ($name:ident, $opt:ident) => {
+        #[derive(desert_macro::BinaryCodec, PartialEq, Debug, Clone)]
+        #[evolution(FieldAdded("region", region()))]
+        pub struct $name {
+            pub id: u8,
+            pub region: u8,
+        }
+        #[derive(desert_macro::BinaryCodec, PartialEq, Debug, Clone)]
+        #[evolution(FieldAdded("note", Some(region())))]
+        pub struct $opt {
+            pub id: u8,
+            pub note: Option<u8>,
+        }
+    };
+}
+order_type!(OrderA, OrderOptA);
+order_type!(OrderB, OrderOptB);
+order_type!(OrderC, OrderOptC);
+
+/// returns descriptions of calls whose result is not the result of the same call in a fresh process
+pub fn default_calls(threads: usize) -> Vec<Value> {
+    let mut bad = Vec::new();
+    let old = [0u8, 5];                       // written by version 0: only `id`
+    let mut expect = |what: &str, got: Result<(u8, Option<u8>), String>, want: (u8, Option<u8>)| {
+        if got != Ok(want) {
+            bad.push(json!({"what": what, "got": format!("{got:?}"), "want": format!("{want:?}")}));
+        }
+    };
+    // A: old data twice with different settings
+    REGION.with(|r| r.set(7));
+    expect("old data, setting 7", deserialize::<OrderA>(&old).map(|o| (o.region, None)).map_err(|e| e.to_string()), (7, None));
+    expect("old data, setting 7 (optional field)", deserialize::<OrderOptA>(&old).map(|o| (0, o.note)).map_err(|e| e.to_string()), (0, Some(7)));
+    REGION.with(|r| r.set(9));
+    expect("old data again, setting 9", deserialize::<OrderA>(&old).map(|o| (o.region, None)).map_err(|e| e.to_string()), (9, None));
+    expect("old data again, setting 9 (optional field)", deserialize::<OrderOptA>(&old).map(|o| (0, o.note)).map_err(|e| e.to_string()), (0, Some(9)));
+    // B: new data first (the default is not needed), then old data
+    REGION.with(|r| r.set(3));
+    let new = serialize_to_byte_vec(&OrderB { id: 5, region: 42 }).unwrap_or_default();
+    expect("new data first", deserialize::<OrderB>(&new).map(|o| (o.region, None)).map_err(|e| e.to_string()), (42, None));
+    REGION.with(|r| r.set(11));
+    expect("old data after new data, setting 11", deserialize::<OrderB>(&old).map(|o| (o.region, None)).map_err(|e| e.to_string()), (11, None));
+    // C: first use on several threads at once, each with its own setting
+    let barrier = Arc::new(std::sync::Barrier::new(threads));
+    let hs: Vec<_> = (0..threads)
+        .map(|t| {
+            let barrier = barrier.clone();
+            std::thread::spawn(move || {
+                REGION.with(|r| r.set(20 + t as u8));
+                barrier.wait();
+                let a = deserialize::<OrderC>(&[0u8, 5]).map(|o| o.region).map_err(|e| e.to_string());
+                let b = deserialize::<OrderOptC>(&[0u8, 5]).map(|o| o.note).map_err(|e| e.to_string());
+                (t, a, b)
+            })
+        })
+        .collect();
+    for h in hs {
+        if let Ok((t, a, b)) = h.join() {
+            if a != Ok(20 + t as u8) || b != Ok(Some(20 + t as u8)) {
+                bad.push(json!({"what": "first use on several threads: a thread's call sees another thread's default", "thread": t,
+                                "got": format!("{a:?} / {b:?}"), "want": 20 + t}));
+            }
+        }
+    }
     bad
 }
